@@ -62,6 +62,58 @@ func runC07(c *Ctx) {
 	negotiateMatchers(c, "R07.6")
 	ruleOffersDefaultLast(c, "R07.1")
 	ruleSpaceClass(c, "R07.4")
+	// the media-range scanner takes in every token octet AND every '/' (it does not judge how many slashes a range may
+	// have: a range of another shape simply matches no offer): the scan stops before the end of the input only at an octet
+	// that is not '/'
+	if ets := c.P.FnOpt("rt/middleware/header.expectTokenSlash"); ets != nil {
+		isOctet := func(v ssa.Value) bool {
+			switch x := v.(type) {
+			case *ssa.Index:
+				return true
+			case *ssa.UnOp:
+				_, isIA := x.X.(*ssa.IndexAddr)
+				return isIA
+			case *ssa.Convert:
+				_, isIdx := x.X.(*ssa.Index)
+				return isIdx
+			}
+			return false
+		}
+		notSlash := factEqInt(isOctet, int64('/'), false)
+		type scanLoop struct {
+			test ssa.Instruction
+			body ssa.Instruction
+		}
+		var ls []scanLoop
+		for _, in := range instrs(ets) {
+			ix, isIx := in.(*ssa.Index)
+			if !isIx || in.Parent() != ets {
+				continue
+			}
+			var header *ssa.BasicBlock
+			for _, b := range ets.Blocks {
+				if b.Dominates(ix.Block()) && reachableFrom(ix.Block(), b) {
+					if _, isIf := lastInstr(b).(*ssa.If); isIf && (header == nil || b.Dominates(header)) {
+						header = b
+					}
+				}
+			}
+			if header != nil && len(header.Succs) == 2 && len(header.Succs[0].Instrs) > 0 {
+				ls = append(ls, scanLoop{lastInstr(header), header.Succs[0].Instrs[0]})
+			}
+			break
+		}
+		for _, l := range ls {
+			early := false
+			for _, r := range realReturns(ets) {
+				if pathExists(ets, l.body, r, notSlash, isOneOf(l.test)) {
+					early = true
+				}
+			}
+			c.obI("R07.4", l.test, "range-scan-stops-only-at-a-non-slash", !early, "expectTokenSlash leaves its scan early only at an octet different from '/'", "the scan can stop AT a '/' (a second slash): the rest of the range — and of the header line — is abandoned, and the truncated range matches an offer it does not name")
+		}
+		c.obRF("R07.4", ets, "range-scan-loop", len(ls) >= 1, "expectTokenSlash scans its input in a loop", "")
+	}
 
 	// NegotiateContentEncoding
 	fe := p.Fn("rt/middleware.NegotiateContentEncoding")
